@@ -86,7 +86,8 @@ Grant(t) ==
         (* the return of an unsubscribe() is a point in the common event order (property C02) *)
         /\ st' = [s1 EXCEPT !.stack = <<>>, !.vs = <<>>,
                             !.ret = U,
-                            !.log = IF done /\ C.threads[t][thr[t].pc].k = "unsub" /\ s1.ret # <<"noop">>
+                            !.log = IF done /\ ((C.threads[t][thr[t].pc].k = "unsub" /\ s1.ret # <<"noop">>)
+                                                 \/ (C.threads[t][thr[t].pc].k = "closed" /\ s1.ret = B(TRUE)))      \* is_closed() answered true
                                     THEN Append(@, LogEntry(0, "U", I(C.threads[t][thr[t].pc].a), t)) ELSE @]
         /\ thr' = [thr EXCEPT ![t] = t1]
         /\ last' = t
